@@ -197,9 +197,14 @@ class Query(QueryBase[QueryResult]):
 
         # Random sampling: generate a random number in (0, 1) based on the
         # specification of SQLite's random() function.
+        # The term must reference the schedules row: SQLite evaluates a WHERE
+        # term in the outermost join loop in which all the tables it mentions
+        # are available, so a term mentioning no table is drawn once per
+        # *flight* whenever the planner drives the join from the flights table.
         if self.sample is not None:
             self._conditions.append(
-                '(random() + 9223372036854775808) / 18446744073709551615.0 < ?'
+                '(random() + 0 * s.id + 9223372036854775808) '
+                '/ 18446744073709551615.0 < ?'
             )
             self._params.append(self.sample)
 
